@@ -22,7 +22,7 @@ cp $demo $wt/$pkgdir/zz_seed_demo_test.go
 ( cd $wt && go test -vet=off -count=1 -run "^($names)\$" ./$pkgdir/ >/tmp/tv-$id.demo.log 2>&1 ); demo_rc=$?
 rm -f $wt/$pkgdir/zz_seed_demo_test.go
 fmt=$(cd $wt && gofmt -l $(git diff --name-only | grep '\.go$') 2>/dev/null | wc -l)
-/verif/bin/vcheck -repo $wt -verif /tmp/tv-$id.out -known /verif/known_findings.json -p all > /tmp/tv-$id.check.log 2>&1
+${VCHECK:-/verif/bin/vcheck} -repo $wt -verif /tmp/tv-$id.out -known /verif/known_findings.json -p all > /tmp/tv-$id.check.log 2>&1
 hits=$(grep '^VIOLATION' /tmp/tv-$id.check.log | sed 's/.*property=\([A-Z0-9]*\).*/\1/' | sort -u | paste -sd,)
 git -C /repo worktree remove --force $wt; rm -rf /tmp/tv-$id.out
 echo "$id: suite=$suite demo_with_twin=$demo_rc (both 0=pass) gofmt_dirty=$fmt alarms=[$hits]"
